@@ -461,6 +461,11 @@ class Process:
             # APIs which don't use _raise_if_pid_reused().
             msg = "process no longer exists and its PID has been reused"
             raise NoSuchProcess(self.pid, self._name, msg=msg)
+        if self._gone:
+            # The process is known to be gone: from now on its PID may
+            # be assigned to a new process at any time, so the OS can no
+            # longer be asked to act on this PID on our behalf.
+            raise NoSuchProcess(self.pid, self._name)
 
     @property
     def pid(self):
